@@ -5,12 +5,12 @@ EXPLANATION = ("Contracts on the share-or-copy decision: the Generation algebra 
 TRUSTED = []
 ASSUMPTIONS = [
     "thread tree axiom (env.rs axiom_thread_tree): a child thread is one level deeper, one generation younger and shares the global state of its parent -- Thread::new_thread itself is not verified (new_child_gc's generation step is)",
-    "clone unit: deep_clone_str/data/closure/app, deep_clone_ptr (visited map) and the element loop deep_clone_elems, gc.alloc(Move(ExternFunction::clone)) and Userdata::deep_clone are ASSUMED to return new objects of the receiving heap (fresh); the visited map is opaque",
+    "clone unit: deep_clone_str/data/closure/app, the element loop deep_clone_elems, the allocation closure passed to deep_clone_ptr, and hash-map lookups/inserts of the visited map (modelled as a ghost map; Entry API desugared), gc.alloc(Move(ExternFunction::clone)) and Userdata::deep_clone are ASSUMED to return new objects of the receiving heap (fresh); the visited map is opaque",
     "Gc::get_type_info replaced by a non-interning stub in the coherence harness (hash maps are intractable for CBMC)",
     "termination is not proved by Kani",
 ]
 NOT_UNDER_CONTRACT = [
-    "Cloner visited map (sharing/cycles: deep_clone_ptr)", "deep_clone_data/closure/app/str bodies (assumed fresh)",
+    "deep_clone_data/closure/app/str bodies (assumed fresh)",
     "structural equality of copies", "lifetime after the sender is dropped",
 ]
 
@@ -39,6 +39,7 @@ def obligations(tier):
         v("Cloner::force_full_clone", "afterwards the share policy generation is below every real generation", "vm/src/value.rs::Cloner::force_full_clone"),
         v("Cloner::deep_clone_inner", "a pointer is returned uncopied only if receiver_generation can contain its generation; otherwise the result is a new object of the receiving heap; scalars by value; policy unchanged", "vm/src/value.rs::Cloner::deep_clone_inner"),
         v("Cloner::deep_clone_array", "the copy of an array is a new object of the receiving heap and every pointer-carrying element representation (String, Array, Unknown, Userdata) has its elements cloned; Thread arrays are refused", "vm/src/value.rs::Cloner::deep_clone_array"),
+        v("Cloner::deep_clone_ptr", "copies are remembered by the address of the object copied: a second pointer to an already copied object yields the same copy (sharing preserved) and the copy is recorded before the children are cloned (cycles terminate)", "vm/src/value.rs::Cloner::deep_clone_ptr"),
         v("Gc::new_child_gc", "a child collector is exactly one generation younger than its parent's", "vm/src/gc.rs::Gc::new_child_gc"),
         v("Cloner::new", "a cloner's share policy starts as the generation of the receiving collector", "vm/src/value.rs::Cloner::new"),
         v("Cloner::deep_clone", "same guarantee as deep_clone_inner for the rooted result", "vm/src/value.rs::Cloner::deep_clone"),
